@@ -550,6 +550,15 @@ pub fn corpus() -> Vec<(&'static str, Prog)> {
             Prog { objs: vec![Obj::Sem { permits: 0, fair: true }], tasks: vec![vec![Op::Spawn(1), Op::Unpark(1), Op::Release(0, 1), Op::Join(1)], vec![Op::Acquire(0, 1), Op::Park]], senders: vec![], receivers: vec![] },
         ));
     }
+    // two unparks for a thread that parks twice: in std both may collapse into one token (the second
+    // park then blocks for ever); Shuttle hands the first wake over directly
+    {
+        let mut b = B::new(2);
+        let a = b.obj(Obj::Atomic(0));
+        b.tasks[0] = vec![Op::Park, Op::Park];
+        b.tasks[1] = vec![Op::Unpark(0), Op::Unpark(0), Op::FetchAdd(a, 1)];
+        v.push(("double-unpark-of-parked-main", b.finish(true)));
+    }
     // reused barrier with more tasks than n
     {
         let mut b = B::new(4);
